@@ -20,6 +20,10 @@ func main() {
 		cmdProgReplay(a)
 	case "parse-trace-check":
 		cmdParseTraceCheck(a)
+	case "expr-replay":
+		cmdExprReplay(a)
+	case "expr-trace-check":
+		cmdExprTraceCheck(a)
 	case "replay":
 		cmdReplay(a)
 	case "lex-trace-check":
